@@ -305,6 +305,7 @@ def C10(ctx):
         # the encoders were evaluated with a symbolic payload for every length residue and both ends of the capacities: a panic
         # that depends on a payload value stops that evaluation (no verdict), one that depends on the length class is met
         ev["encode::encode_"] = "C06.R2 (all evaluated length cells)"
+        ev["encode::"] = "C06.R2 (all evaluated length cells, payloads in the mode's alphabet)"
         ev["<encode::"] = "C06.R2 (all evaluated length cells)"
         # the bit vector the encoders write into is evaluated with them (push_bits, push_u8, fill, ...)
         ev["compact::"] = "C06.R2 (all evaluated length cells)"
